@@ -1290,8 +1290,30 @@ func (x *g) ifStmt(d int) string {
 	s := "if" + x.s() + "(" + x.s() + x.par(c, 0) + x.s() + ")" + x.s() + x.subStmt(d-1)
 	if x.chance("else", 2) {
 		x.feat("if-else")
+		// known finding C01-else-unscope-keepnames: when the then-branch ends in a jump the else block is
+		// dissolved into the enclosing scope, its let/const declarations included (only correct when
+		// renaming). With the guard such an else branch declares nothing lexical.
+		jump := strings.Contains(s, "break") || strings.Contains(s, "continue") || strings.Contains(s, "return") || strings.Contains(s, "throw")
+		if jump && x.guard("noElseLexicalAfterJump") {
+			x.prog.Excluded["noElseLexicalAfterJump"]++
+			x.push(false, nil)
+			x.sc.noLex = true
+			inner := x.stmts(1+x.n("elsen", 2), d-1)
+			x.pop()
+			els := "{" + inner + "}"
+			if strings.Contains(inner, "let ") || strings.Contains(inner, "const ") || strings.Contains(inner, "class ") || strings.Contains(inner, "function") {
+				els = "{$(" + x.numLit() + ")}"
+			}
+			return s + "else" + els
+		}
+		lexThen := strings.Contains(s, "let ") || strings.Contains(s, "const ") || strings.Contains(s, "class ") || strings.Contains(s, "function")
 		els := x.subStmt(d - 1)
-		if x.chance("elseif", 4) {
+		if lexThen && x.guard("noElseLexicalAfterJump") && (strings.Contains(els, "break") || strings.Contains(els, "continue") || strings.Contains(els, "return") || strings.Contains(els, "throw")) {
+			// mirrored form of the same finding: if(!a){let ..}else return  =>  if(a)return;let ..
+			x.prog.Excluded["noElseLexicalAfterJump"]++
+			els = "{$(" + x.numLit() + ")}"
+		}
+		if x.chance("elseif", 4) && !(lexThen && x.guard("noElseLexicalAfterJump")) {
 			x.feat("else-if")
 			els = x.ifStmt(d - 1)
 		}
